@@ -31,17 +31,37 @@ type Config struct {
 	AddList bool       `json:"add_list,omitempty"`
 	Iface   string     `json:"iface,omitempty"` // bare | full | glob: which optional fs interfaces the simulated FS offers
 	Real    bool       `json:"real,omitempty"`  // materialise in a real directory and use FS == nil
+	// FDLimit is the descriptor budget of the simulated FS: Open fails with
+	// EMFILE while that many handles are open at the same time (0: no budget).
+	FDLimit int `json:"fd_limit,omitempty"`
+}
+
+// Leg is one of the calls of an "overlap" item.
+type Leg struct {
+	Sources []string `json:"sources"`
+	// Park > 0: the call is held inside the simulated FS at its operation
+	// number 1 + (Park-1) mod N, N being the number of FS operations the same
+	// call makes when it runs alone; 0: it runs through.
+	Park int `json:"park,omitempty"`
 }
 
 // Action is one independent item of a case: a tree entry, a fault or a call.
 type Action struct {
-	Op      string   `json:"op"` // file | dir | symlink | pipe | fault | call
+	Op      string   `json:"op"` // file | dir | symlink | pipe | fault | call | filter | overlap
 	Name    string   `json:"name,omitempty"`
 	Data    string   `json:"data,omitempty"`
 	Target  string   `json:"target,omitempty"`
 	Kind    string   `json:"kind,omitempty"` // fault kind
 	K       int      `json:"k,omitempty"`
 	Sources []string `json:"sources,omitempty"`
+	// "filter": one SetFilter call made between the From calls
+	Filter *FilterOp `json:"filter,omitempty"`
+	// "overlap": From calls on the one converter that overlap in time.  The
+	// legs are started in order, each running until it parks or returns; then
+	// the parked ones are let go one at a time in the order of Release (those
+	// not named there follow in leg order).
+	Legs    []Leg `json:"legs,omitempty"`
+	Release []int `json:"release,omitempty"`
 }
 
 func (a Action) String() string {
@@ -56,6 +76,17 @@ func (a Action) String() string {
 		return fmt.Sprintf("fault %q %s k=%d", a.Name, a.Kind, a.K)
 	case "call":
 		return fmt.Sprintf("call %q", a.Sources)
+	case "filter":
+		if a.Filter == nil {
+			return "filter ?"
+		}
+		return fmt.Sprintf("filter %q=%s", a.Filter.P, a.Filter.K)
+	case "overlap":
+		var sb strings.Builder
+		for i, l := range a.Legs {
+			fmt.Fprintf(&sb, " leg%d=%q park=%d", i, l.Sources, l.Park)
+		}
+		return fmt.Sprintf("overlap%s release=%v", sb.String(), a.Release)
 	}
 	return fmt.Sprintf("?%s %q", a.Op, a.Name)
 }
@@ -82,23 +113,36 @@ func newTable(cfg Config) (*table, error) {
 		return nil, fmt.Errorf("unknown base %q", cfg.Base)
 	}
 	for _, op := range cfg.Table {
-		if _, err := path.Match(op.P, ""); err != nil || strings.Contains(op.P, "/") || op.P == "" {
-			return nil, fmt.Errorf("pattern %q not usable", op.P)
-		}
-		switch op.K {
-		case fkDel:
-			delete(t.kind, op.P)
-		case fkMark, fkPass, fkDrop:
-			t.kind[op.P] = op.K
-		default:
-			return nil, fmt.Errorf("unknown filter kind %q", op.K)
+		if err := t.apply(op); err != nil {
+			return nil, err
 		}
 	}
+	t.resort()
+	return t, nil
+}
+
+// apply makes the model follow one SetFilter call (resort afterwards).
+func (t *table) apply(op FilterOp) error {
+	if _, err := path.Match(op.P, ""); err != nil || strings.Contains(op.P, "/") || op.P == "" {
+		return fmt.Errorf("pattern %q not usable", op.P)
+	}
+	switch op.K {
+	case fkDel:
+		delete(t.kind, op.P)
+	case fkMark, fkPass, fkDrop:
+		t.kind[op.P] = op.K
+	default:
+		return fmt.Errorf("unknown filter kind %q", op.K)
+	}
+	return nil
+}
+
+func (t *table) resort() {
+	t.pats = t.pats[:0]
 	for p := range t.kind {
 		t.pats = append(t.pats, p)
 	}
 	sort.Strings(t.pats)
-	return t, nil
 }
 
 // first returns the first pattern (in sorted order) that matches name.
